@@ -62,7 +62,7 @@ func genCase(t *rapid.T) sim.Spec {
 	}
 	// locations that differ only in the query string: same host, port and path as the previous CDP
 	for i := 1; i < len(s.CDPs); i++ {
-		if s.CDPs[i].Kind == "http" && s.CDPs[i-1].Kind == "http" && s.CDPs[i].Twin < 0 && s.CDPs[i-1].Twin < 0 && s.CDPs[i-1].SamePath == 0 &&
+		if s.CDPs[i].Kind == "http" && s.CDPs[i-1].Kind == "http" && s.CDPs[i].Twin < 0 && s.CDPs[i-1].Twin < 0 && s.CDPs[i].UpperOf == 0 && s.CDPs[i-1].UpperOf == 0 && s.CDPs[i-1].SamePath == 0 &&
 			rapid.IntRange(0, 1).Draw(t, fmt.Sprintf("qt%d", i)) == 0 {
 			s.CDPs[i].SamePath = i
 			s.CDPs[i].Query = "cmd=crl&issuer=CA" + fmt.Sprint(i)
@@ -335,6 +335,9 @@ func runCase(s sim.Spec, x *ev.Ctx) error {
 		}
 		if c.Twin >= 0 {
 			x.Class("locations-differing-only-in-port")
+		}
+		if c.UpperOf > 0 {
+			x.Class("locations-differing-only-in-letter-case")
 		}
 	}
 	if res.Handshakes > 0 && (res.RejectedLoads > 0 || res.Restarts > 0 || queries > 0) {
